@@ -450,6 +450,43 @@ def rule_data_key(ck: Check, repo: Repo) -> None:
                         f"{len(missing)} entries lack isDeprecatedLicenseId/{key}: {missing[:3]}")
 
 
+def rule_extensionless(ck: Check, repo: Repo, rid: str = "R10") -> None:
+    """Clause (c): every file in LICENSES/ has a file extension.  _find_licenses learns that a file has none from
+    SpdxIdentifierNotFoundError; every branch of that handler must either record the file in licenses_without_extension
+    (which the verdict consults) or refuse it - a branch that merely picks an identifier accepts the file silently."""
+    r = ck.rule(rid, "a LICENSES/ file without extension is always reported (every branch of the no-extension handler records or refuses it)")
+    q = "reuse.project.Project._find_licenses"
+    fn = repo.func(q)
+    handlers = [h for n in ast.walk(fn) if isinstance(n, ast.Try) for h in n.handlers
+                if h.type is not None and "SpdxIdentifierNotFoundError" in ast.unparse(h.type)]
+    if len(handlers) != 1:
+        raise AnalysisError("_find_licenses: SpdxIdentifierNotFoundError handler not found")
+
+    def branches(stmts, cond=()):
+        """Leaf statement lists of an if/else tree."""
+        if stmts and isinstance(stmts[-1], ast.If) or any(isinstance(s, ast.If) for s in stmts):
+            out = []
+            pre = []
+            for s in stmts:
+                if isinstance(s, ast.If):
+                    out += branches(pre + s.body, cond + (ast.unparse(s.test),))
+                    out += branches(pre + s.orelse, cond + ("not " + ast.unparse(s.test),))
+                    return out
+                pre.append(s)
+        return [(cond, stmts)]
+
+    for cond, stmts in branches(handlers[0].body):
+        txt = " ".join(ast.unparse(s) for s in stmts)
+        records = "licenses_without_extension[" in txt or "licenses_without_extension.add" in txt
+        refuses = any(isinstance(x, ast.Raise) for s in stmts for x in ast.walk(s))
+        r.instance("no-extension-branch:" + " and ".join(cond), {"condition": list(cond), "records": records, "refuses": refuses}, q)
+        if not (records or refuses):
+            r.violation(q, f"extension-less file accepted silently when [{' and '.join(cond)}]",
+                        "the branch only chooses an identifier (and logs a warning): `LICENSES/LicenseRef-foo` without extension is used"
+                        " like a proper licence text, lint exits 0 and names it nowhere", repo.loc(handlers[0]))
+
+
+
 def run(ck: Check, repo: Repo) -> None:
     ck.explanation = (
         "Decides the wiring of the lint verdict: is_compliant as a boolean formula over the"
@@ -478,6 +515,7 @@ def run(ck: Check, repo: Repo) -> None:
     # clause (a): what is ATTRIBUTED to a covered file - the precedence table of Project.reuse_info_of (shared with C04-R1)
     from . import c04
     c04.rule_table(ck, repo, "R9")
+    rule_extensionless(ck, repo)
     ck.exhaustive = True
 
 
